@@ -78,13 +78,13 @@ def same(a, b):
     if a is None or b is None:
         return a is None and b is None
     a, b = numpy.asarray(a), numpy.asarray(b)
-    return a.shape == b.shape and bool(numpy.array_equal(a, b))
+    return a.shape == b.shape and bool(numpy.array_equal(a, b, equal_nan=(a.dtype.kind == 'f' and b.dtype.kind == 'f')))
 
 
-def clauses(P, kind, bound, case, items_code, items, want_len):
+def clauses(P, kind, bound, case, items_code, items, want_len, who=None):
     """Direct evaluation of the C10 clauses on one (bound or unbound) primitive.  Everything is
     computed from the primitive's public array views and from the case's own vcounts."""
-    who = 'bound' if bound else 'unbound'
+    who = who or ('bound' if bound else 'unbound')
     fails = []
 
     def fail(clause, what, detail):
@@ -201,7 +201,41 @@ def run_case(case):
                       'what': ('no-corners-raises-TypeError' if isinstance(val2, TypeError) and b.vertex_index is None
                                and blen > 0 and k == 1 else 'raises-%s' % type(val2).__name__) if code2 else 'count-differs',
                       'detail': 'list(bound) gave %r, len() = %d' % (val2 if code2 else len(val2), blen)})
-    # bound views must be the transformed unbound ones (integer matrix: exact)
+    # ---- histories (direct oracle only): the clauses must keep holding after other public calls
+    def recheck(P, bound, who, how=None):
+        c, v = attempt(how or ((lambda: list(P.shapes())) if bound else (lambda: list(P))))
+        return clauses(P, kind, bound, case, c, v, want_len, who=who)
+    fails += recheck(p, False, 'unbound-second-iteration')
+    meth = {'tri': 'triangles', 'line': 'lines', 'polylist': 'polygons', 'polygons': 'polygons'}[kind]
+    fails += recheck(b, True, 'bound-' + meth, how=lambda: list(getattr(b, meth)()))
+    # a geometry holding two primitives: BoundGeometry.primitives() binds each one, in order
+    il0 = source.InputList()
+    il0.addInput(0, 'VERTEX', '#dummy')
+    g2 = geometry.Geometry(collada.Collada(), 'g2', 'g2', [dummy], [])
+    first = g2.createTriangleSet(numpy.array([0, 0, 0], dtype=numpy.int32), il0, 'mat1')
+    g2.primitives.extend([first, p])
+    bg = g2.bind(M, matmap)
+    c, bl = attempt(lambda: list(bg.primitives()))
+    if c != 0 or len(bl) != 2 or len(bg) != 2 or bl[0].original is not first or bl[1].original is not p:
+        fails.append({'clause': 'len', 'site': kind, 'who': 'bound-geometry', 'what': 'primitives-differ',
+                      'detail': 'BoundGeometry.primitives() of a two-primitive geometry gave %r' % (bl,)})
+    else:
+        fails += recheck(bl[1], True, 'bound-second-of-two')
+        if len(bl[0]) != 1 or len(list(bl[0].shapes())) != 1:
+            fails.append({'clause': 'len', 'site': 'tri', 'who': 'bound-first-of-two', 'what': 'len-differs',
+                          'detail': 'the one-triangle set bound next to the case has %d items' % len(bl[0])})
+    if k == 1:
+        attempt(lambda: p.triangleset())               # its result is C11's subject
+        fails += recheck(p, False, 'unbound-after-triangleset')
+    if kind == 'tri' and ulen > 0:
+        if attempt(b.generateNormals)[0] == 0:
+            fails += recheck(b, True, 'bound-after-generateNormals')
+        if attempt(p.generateNormals)[0] == 0:
+            fails += recheck(p, False, 'unbound-after-generateNormals')
+            fails += recheck(p.bind(M, matmap), True, 'bound-of-generated')
+        if attempt(p.generateTexTangentsAndBinormals)[0] == 0:
+            fails += recheck(p, False, 'unbound-after-generateTexTangentsAndBinormals')
+            fails += recheck(p.bind(M, matmap), True, 'bound-of-generated-tangents')
     return {'code': 0, 'u': [ulen, uiter, gets], 'b': [blen, bshapes, blegacy], 'fails': fails}
 
 
